@@ -384,3 +384,318 @@ Section LogRules.
     eapply reach_step; eassumption.
   Qed.
 End LogRules.
+
+(* ------------------------------------------------------------------ *)
+(** * Logs as prefix-paths of the leader logs *)
+
+(* every prefix of [L] is the prefix of the leader log of the term of its last entry *)
+Definition good (lg : N -> list ent) (L : list ent) : Prop :=
+  forall j, (1 <= j <= length L)%nat ->
+    (j <= length (lg (term_at L j)))%nat /\ firstn j L = firstn j (lg (term_at L j)).
+
+Definition grows (lg lg' : N -> list ent) : Prop := forall t, exists suf, lg' t = lg t ++ suf.
+
+Lemma grows_refl lg : grows lg lg.
+Proof. intros t. exists []. symmetry. apply app_nil_r. Qed.
+
+Lemma good_nil lg : good lg [].
+Proof. intros j Hj. cbn in Hj. lia. Qed.
+
+Lemma good_mono lg lg' L : grows lg lg' -> good lg L -> good lg' L.
+Proof.
+  intros Hg HL j Hj. destruct (HL j Hj) as [H1 H2]. destruct (Hg (term_at L j)) as [suf Hs].
+  rewrite Hs. split; [rewrite app_length; lia|]. rewrite firstn_app_le by exact H1. exact H2.
+Qed.
+
+Lemma good_firstn lg L m : good lg L -> good lg (firstn m L).
+Proof.
+  intros HL j Hj. rewrite firstn_length in Hj.
+  rewrite term_at_firstn by lia. rewrite firstn_firstn_le by lia. apply HL. lia.
+Qed.
+
+Lemma good_snoc lg lg' L e : good lg L -> grows lg lg' -> lg' (eterm e) = L ++ [e] -> good lg' (L ++ [e]).
+Proof.
+  intros HL Hg He j Hj. rewrite app_length in Hj. cbn in Hj.
+  destruct (Nat.eq_dec j (S (length L))) as [->|Hne].
+  - rewrite term_at_app_last, He. split; [rewrite app_length; cbn; lia|reflexivity].
+  - rewrite term_at_app_l by lia. rewrite firstn_app_le by lia.
+    apply (good_mono lg lg' L Hg HL). lia.
+Qed.
+
+Lemma good_matching lg L1 L2 j : good lg L1 -> good lg L2 ->
+  (1 <= j)%nat -> (j <= length L1)%nat -> (j <= length L2)%nat ->
+  term_at L1 j = term_at L2 j -> firstn j L1 = firstn j L2.
+Proof.
+  intros H1 H2 Hj Hl1 Hl2 Ht. destruct (H1 j) as [_ E1]; [lia|]. destruct (H2 j) as [_ E2]; [lia|].
+  rewrite E1, E2, Ht. reflexivity.
+Qed.
+
+Lemma become_leader_inv inc out c e e' : prule inc out (LBecomeLeader c) e = Some e' ->
+  p_role (nodes e c) = PC /\ p_up (nodes e c) = true /\ quorum inc out (p_granted (nodes e c)) = true /\
+  e' = add_leader (set_node e c (mkPN true (p_term (nodes e c)) (p_vote (nodes e c)) PL (p_granted (nodes e c))
+                                      (p_dterm (nodes e c)) (p_dvote (nodes e c)) (p_imgs (nodes e c))))
+                  (p_term (nodes e c)) c.
+Proof.
+  cbn [prule]. intros H. destruct (p_role (nodes e c)); try discriminate.
+  destruct (p_up (nodes e c) && quorum inc out (p_granted (nodes e c))) eqn:Hg; [|discriminate].
+  apply andb_prop in Hg. destruct Hg as [H1 H2]. inversion H; subst; clear H. auto.
+Qed.
+
+Section LogInv.
+  Variables (inc out : list N).
+  Hypothesis inc_nonempty : inc <> [].
+  Hypothesis Hmulti : no_single_quorum inc out.
+  Notation lrule := (lrule inc out).
+  Notation lreachable := (lreachable inc out).
+
+  Record LInv (s : lst) : Prop := {
+    (* B: a leader's log is the ghost leader log of its term *)
+    li_B : forall c, own_term_leader s c = true -> l_log (ln s c) = llog s (p_term (nodes (el s) c));
+    (* C1: a non-empty leader log has a recorded leader *)
+    li_C1 : forall t, llog s t <> [] -> exists c, In c (leaders (el s) t);
+    (* D: every log is a prefix-path of the leader logs *)
+    li_Dlog : forall n, good (llog s) (l_log (ln s n));
+    li_Ddlog : forall n, good (llog s) (l_dlog (ln s n));
+    li_Dimg : forall n img, In img (l_imgs (ln s n)) -> good (llog s) img;
+    li_Dllog : forall t, good (llog s) (llog s t);
+    li_Dclog : forall c t, good (llog s) (clog s c t);
+    (* G: the commit index is within the log *)
+    li_G : forall n, (l_commit (ln s n) <= length (l_log (ln s n)))%nat
+  }.
+
+  Lemma LInv_init : LInv linit.
+  Proof.
+    constructor; cbn; intros; try apply good_nil; try discriminate; try contradiction; try congruence; lia.
+  Qed.
+
+  (* a new leader's term has no leader log yet *)
+  Lemma new_leader_llog_nil s c e' : lreachable s -> LInv s ->
+    prule inc out (LBecomeLeader c) (el s) = Some e' -> llog s (p_term (nodes (el s) c)) = [].
+  Proof.
+    intros Hr HI He. pose proof (lreachable_el _ _ _ Hr) as Hre.
+    assert (Hre' : reachable inc out e') by (eapply reach_step; eassumption).
+    destruct (become_leader_inv _ _ _ _ _ He) as (Hpc & _ & _ & ->).
+    destruct (llog s (p_term (nodes (el s) c))) as [|x r] eqn:El; [reflexivity|exfalso].
+    destruct (li_C1 s HI (p_term (nodes (el s) c))) as [c' Hc']; [rewrite El; discriminate|].
+    assert (c' = c).
+    { eapply (election_safety inc out inc_nonempty _ (p_term (nodes (el s) c)) c' c Hmulti Hre'); cbn;
+        rewrite N.eqb_refl; [right; exact Hc'|left; reflexivity]. }
+    subst c'. eapply (leader_not_candidate inc out Hmulti (el s) Hre); eauto.
+  Qed.
+
+  (* C3: leader logs only grow by appending *)
+  Lemma llog_grows s l s' : lreachable s -> LInv s -> lrule l s = Some s' -> grows (llog s) (llog s').
+  Proof.
+    intros Hr HI H. destruct l as [l0|c x|n m|q i|q t i|c k|n k|n|n].
+    - destruct (lel_inv _ _ _ _ _ H) as (e' & He & Hel & Hs).
+      destruct l0; try (subst s'; apply grows_refl); try (destruct Hs as [-> _]; apply grows_refl).
+      destruct Hs as [_ ->]. intros t. cbn.
+      destruct (N.eqb_spec t (p_term (nodes e' c))) as [->|Hne]; [|exists []; symmetry; apply app_nil_r].
+      pose proof (new_leader_llog_nil s c e' Hr HI He) as Hnil.
+      destruct (become_leader_inv _ _ _ _ _ He) as (_ & _ & _ & Ee). rewrite Ee. cbn. rewrite N.eqb_refl. cbn.
+      rewrite Hnil. eexists. reflexivity.
+    - apply lpropose_inv in H. destruct H as (Hl & ->). intros t. cbn.
+      destruct (N.eqb_spec t (p_term (nodes (el s) c))) as [->|Hne]; [|exists []; symmetry; apply app_nil_r].
+      rewrite (li_B s HI c Hl). eexists. reflexivity.
+    - apply ladopt_inv in H. cbv zeta in H. destruct H as (_ & _ & _ & _ & _ & _ & ->). apply grows_refl.
+    - apply lmkack_inv in H. cbv zeta in H. destruct H as (_ & _ & _ & _ & ->). apply grows_refl.
+    - apply lrelack_inv in H. destruct H as (_ & _ & _ & ->). destruct (acked s q t <? i)%nat; apply grows_refl.
+    - apply lcommitl_inv in H. cbv zeta in H. destruct H as (_ & _ & _ & _ & _ & ->). apply grows_refl.
+    - apply lcommitf_inv in H. destruct H as (_ & _ & _ & _ & ->). apply grows_refl.
+    - apply llogimage_inv in H. destruct H as (_ & ->). apply grows_refl.
+    - apply llogfsync_inv in H. destruct H as (img & rest & _ & _ & ->). apply grows_refl.
+  Qed.
+
+  (* frame lemmas *)
+  Lemma LInv_set_ln s n x' : LInv s ->
+    (own_term_leader s n = true -> l_log x' = l_log (ln s n)) ->
+    good (llog s) (l_log x') -> good (llog s) (l_dlog x') ->
+    (forall img, In img (l_imgs x') -> good (llog s) img) ->
+    (l_commit x' <= length (l_log x'))%nat ->
+    LInv (set_ln s n x').
+  Proof.
+    intros HI HB H1 H2 H3 H4. destruct HI as [B C1 D1 D2 D3 D4 D5 G].
+    constructor; cbn [set_ln ln el llog clog]; intros.
+    - change (own_term_leader (set_ln s n x') c) with (own_term_leader s c) in H.
+      destruct (N.eqb_spec c n) as [->|Hne]; [rewrite HB by exact H|]; apply B; exact H.
+    - apply C1; assumption.
+    - destruct (n0 =? n); [exact H1|apply D1].
+    - destruct (n0 =? n); [exact H2|apply D2].
+    - destruct (n0 =? n); [apply H3; exact H|eapply D3; exact H].
+    - apply D4.
+    - apply D5.
+    - destruct (n0 =? n); [exact H4|apply G].
+  Qed.
+
+  Lemma LInv_set_acked s q t i : LInv s -> LInv (set_acked s q t i).
+  Proof. intros [B C1 D1 D2 D3 D4 D5 G]. constructor; assumption. Qed.
+
+  Lemma LInv_add_cpt s t k : LInv s -> LInv (add_cpt s t k).
+  Proof. intros [B C1 D1 D2 D3 D4 D5 G]. constructor; assumption. Qed.
+
+  Lemma LInv_set_clog s c t L : LInv s -> good (llog s) L -> LInv (set_clog s c t L).
+  Proof.
+    intros [B C1 D1 D2 D3 D4 D5 G] HL. constructor; try assumption.
+    intros c0 t0. cbn. destruct ((c0 =? c) && (t0 =? t)); [exact HL|apply D5].
+  Qed.
+
+  Lemma LInv_set_el s e' l0 : LInv s -> prule inc out l0 (el s) = Some e' ->
+    (forall k, l0 <> LBecomeLeader k) -> LInv (set_el s e').
+  Proof.
+    intros [B C1 D1 D2 D3 D4 D5 G] He Hnl. constructor; try assumption.
+    - intros c. unfold own_term_leader. cbn [set_el el ln llog]. intros Hc.
+      destruct (prule_shape _ _ _ _ _ He) as (k & p' & Hn & [[Hl Hch]|(_ & _ & _ & _ & El & _)]);
+        [|exfalso; eapply Hnl; exact El].
+      rewrite Hn in *. destruct (N.eqb_spec c k) as [->|Hne]; [|apply B; exact Hc].
+      destruct Hch as [Hc1 Hc2 Hc3|Hc1 _|Hc1 _].
+      + rewrite Hc2. apply B. unfold own_term_leader. rewrite <- Hc1, <- Hc3. exact Hc.
+      + rewrite Hc1 in Hc. discriminate.
+      + rewrite Hc1 in Hc. discriminate.
+    - intros t Ht. cbn [set_el el llog] in *. destruct (C1 t Ht) as [c Hc]. exists c.
+      destruct (prule_shape _ _ _ _ _ He) as (k & p' & Hn & [[Hl Hch]|(_ & _ & _ & _ & El & _)]);
+        [|exfalso; eapply Hnl; exact El].
+      rewrite Hl. exact Hc.
+  Qed.
+
+  (* a leader (new or old) appends an entry of its term *)
+  Lemma LInv_append s c e' en :
+    let L := l_log (ln s c) in
+    let t := eterm en in
+    LInv s ->
+    (exists suf, L ++ [en] = llog s t ++ suf) ->
+    (forall c0, own_term_leader (set_el s e') c0 = true ->
+       (c0 = c /\ p_term (nodes e' c) = t) \/
+       (c0 <> c /\ own_term_leader s c0 = true /\ p_term (nodes e' c0) = p_term (nodes (el s) c0) /\
+        p_term (nodes e' c0) <> t)) ->
+    In c (leaders e' t) -> (forall t0 c0, In c0 (leaders (el s) t0) -> In c0 (leaders e' t0)) ->
+    LInv (set_llog (set_ln (set_el s e') c (with_log (ln s c) (L ++ [en]))) t (L ++ [en])).
+  Proof.
+    intros L t [B C1 D1 D2 D3 D4 D5 G] Hsuf HB Hin Hl.
+    set (s' := set_llog (set_ln (set_el s e') c (with_log (ln s c) (L ++ [en]))) t (L ++ [en])).
+    assert (Hgr : grows (llog s) (llog s')).
+    { intros t0. cbn. destruct (N.eqb_spec t0 t) as [->|Hne]; [exact Hsuf|exists []; symmetry; apply app_nil_r]. }
+    assert (Hnew : good (llog s') (L ++ [en])).
+    { apply good_snoc with (lg := llog s); [apply D1|exact Hgr|]. cbn. fold t. rewrite N.eqb_refl. reflexivity. }
+    constructor.
+    - intros c0 Hc0. change (own_term_leader s' c0) with (own_term_leader (set_el s e') c0) in Hc0.
+      cbn [s' set_llog set_ln set_el ln el llog].
+      destruct (HB c0 Hc0) as [[-> Ht]|(Hne & Hold & Ht1 & Ht2)].
+      + rewrite N.eqb_refl, Ht, N.eqb_refl. reflexivity.
+      + apply N.eqb_neq in Hne, Ht2. rewrite Hne, Ht2, Ht1. apply B. exact Hold.
+    - intros t0. cbn [s' set_llog set_ln set_el ln el llog].
+      destruct (N.eqb_spec t0 t) as [->|Hne]; [intros _; exists c; exact Hin|].
+      intros Ht0. destruct (C1 t0 Ht0) as [c0 Hc0]. exists c0. apply Hl. exact Hc0.
+    - intros n. cbn [s' set_llog set_ln set_el ln el llog].
+      destruct (n =? c); [exact Hnew|]. apply good_mono with (lg := llog s); [exact Hgr|apply D1].
+    - intros n. cbn [s' set_llog set_ln set_el ln el llog].
+      destruct (n =? c); cbn; (apply good_mono with (lg := llog s); [exact Hgr|apply D2]).
+    - intros n img. cbn [s' set_llog set_ln set_el ln el llog].
+      destruct (n =? c); cbn; intros Himg; (apply good_mono with (lg := llog s); [exact Hgr|eapply D3; exact Himg]).
+    - intros t0. change (good (llog s') (if t0 =? t then L ++ [en] else llog s t0)). destruct (t0 =? t); [exact Hnew|].
+      apply good_mono with (lg := llog s); [exact Hgr|apply D4].
+    - intros c0 t0. apply good_mono with (lg := llog s); [exact Hgr|apply D5].
+    - intros n. cbn [s' set_llog set_ln set_el ln el llog].
+      destruct (n =? c) eqn:E; [|apply G]. cbn [with_log l_log l_commit]. rewrite app_length. pose proof (G c) as Gc. subst L. cbn [length]. lia.
+  Qed.
+  Lemma own_term_leader_spec s c :
+    own_term_leader s c = true <-> p_role (nodes (el s) c) = PL /\ p_up (nodes (el s) c) = true.
+  Proof. unfold own_term_leader. destruct (p_role (nodes (el s) c)); split; intros; try tauto; try discriminate; destruct H; discriminate. Qed.
+
+  Theorem LInv_step s l s' : lreachable s -> LInv s -> lrule l s = Some s' -> LInv s'.
+  Proof.
+    intros Hr HI H. pose proof (lreachable_el _ _ _ Hr) as Hre.
+    destruct l as [l0|c x|n m|q i|q t i|c k|n k|n|n].
+    - destruct (lel_inv _ _ _ _ _ H) as (e' & He & Hel & Hs).
+      assert (Hre' : reachable inc out e') by (eapply reach_step; eassumption).
+      destruct l0 as [n|n|n|n t|n c t|n t|n t|c n|c|n t|n|n|n];
+        try (subst s'; eapply LInv_set_el; [exact HI|exact He|discriminate]).
+      + (* campaign *)
+        subst s'. apply LInv_set_clog; [eapply LInv_set_el; [exact HI|exact He|discriminate]|].
+        cbn. apply (li_Dlog s HI).
+      + (* grant *)
+        destruct Hs as [-> _]. eapply LInv_set_el; [exact HI|exact He|discriminate].
+      + (* become leader *)
+        destruct Hs as [Hcl ->].
+        destruct (become_leader_inv _ _ _ _ _ He) as (Hpc & Hup & Hq & Ee).
+        assert (Et : p_term (nodes e' c) = p_term (nodes (el s) c))
+          by (rewrite Ee; cbn; rewrite N.eqb_refl; reflexivity).
+        assert (Hrl : p_role (nodes e' c) = PL) by (rewrite Ee; cbn; rewrite N.eqb_refl; reflexivity).
+        apply (LInv_append s c e' (p_term (nodes e' c), 0)); cbn [eterm fst].
+        * exact HI.
+        * rewrite Et, (new_leader_llog_nil s c e' Hr HI He). eexists. reflexivity.
+        * intros c0 Hc0. destruct (N.eq_dec c0 c) as [->|Hne]; [left; auto|right].
+          apply own_term_leader_spec in Hc0. cbn [set_el el] in Hc0. destruct Hc0 as [Hc1 Hc2].
+          assert (En : nodes e' c0 = nodes (el s) c0).
+          { rewrite Ee. cbn. apply N.eqb_neq in Hne. rewrite Hne. reflexivity. }
+          split; [exact Hne|]. split; [apply own_term_leader_spec; rewrite <- En; auto|].
+          split; [rewrite En; reflexivity|]. intros Heq. apply Hne.
+          eapply (election_safety_roles inc out inc_nonempty e' c0 c Hmulti Hre'); assumption.
+        * rewrite Et. rewrite Ee. cbn. rewrite N.eqb_refl. left. reflexivity.
+        * intros t0 c0 Hin. rewrite Ee. cbn. destruct (t0 =? p_term (nodes (el s) c)); [right|]; exact Hin.
+      + (* crash *)
+        subst s'. apply LInv_set_ln.
+        * eapply LInv_set_el; [exact HI|exact He|discriminate].
+        * intros Hl. exfalso. cbn [prule] in He. destruct (p_up (nodes (el s) n)); [|discriminate].
+          inversion He; subst e'; clear He. unfold own_term_leader in Hl. cbn in Hl.
+          rewrite N.eqb_refl in Hl. cbn in Hl. discriminate.
+        * cbn. apply (li_Ddlog s HI).
+        * cbn. apply (li_Ddlog s HI).
+        * cbn. contradiction.
+        * cbn. lia.
+    - (* propose *)
+      apply lpropose_inv in H. destruct H as (Hl & ->).
+      pose proof Hl as Hl'. apply own_term_leader_spec in Hl'. destruct Hl' as [Hrl Hup].
+      apply (LInv_append s c (el s) (p_term (nodes (el s) c), x)); cbn [eterm fst].
+      + exact HI.
+      + rewrite (li_B s HI c Hl). eexists. reflexivity.
+      + intros c0 Hc0. change (own_term_leader s c0 = true) in Hc0.
+        destruct (N.eq_dec c0 c) as [->|Hne]; [left; auto|right].
+        split; [exact Hne|]. split; [exact Hc0|]. split; [reflexivity|]. intros Heq. apply Hne.
+        apply own_term_leader_spec in Hc0. destruct Hc0 as [Hc1 Hc2].
+        eapply (election_safety_roles inc out inc_nonempty (el s) c0 c Hmulti Hre); assumption.
+      + apply (leader_recorded inc out); assumption.
+      + auto.
+    - (* adopt *)
+      apply ladopt_inv in H. cbv zeta in H. destruct H as (Hup & Hnl & Hm & Hch & Hcp & Hcm & ->).
+      apply LInv_set_ln; cbn [with_log l_log l_dlog l_imgs l_commit].
+      + exact HI.
+      + intros Hl. apply own_term_leader_spec in Hl. destruct Hl as [Hl _]. contradiction.
+      + apply good_firstn. apply (li_Dllog s HI).
+      + apply (li_Ddlog s HI).
+      + apply (li_Dimg s HI).
+      + rewrite firstn_length. lia.
+    - (* make ack *)
+      apply lmkack_inv in H. cbv zeta in H. destruct H as (_ & _ & _ & _ & ->).
+      apply LInv_set_ln; cbn [l_log l_dlog l_imgs l_commit]; try reflexivity; try exact HI;
+        [apply (li_Dlog s HI)|apply (li_Ddlog s HI)|apply (li_Dimg s HI)|apply (li_G s HI)].
+    - (* release ack *)
+      apply lrelack_inv in H. destruct H as (_ & _ & _ & ->).
+      destruct (acked s q t <? i)%nat; [apply LInv_set_acked|]; exact HI.
+    - (* leader commit *)
+      apply lcommitl_inv in H. cbv zeta in H. destruct H as (_ & Hk & _ & _ & _ & ->).
+      apply LInv_add_cpt.
+      apply LInv_set_ln; cbn [l_log l_dlog l_imgs l_commit]; try reflexivity; try exact HI;
+        [apply (li_Dlog s HI)|apply (li_Ddlog s HI)|apply (li_Dimg s HI)|exact Hk].
+    - (* follower commit *)
+      apply lcommitf_inv in H. destruct H as (_ & Hk & _ & _ & ->).
+      apply LInv_set_ln; cbn [l_log l_dlog l_imgs l_commit]; try reflexivity; try exact HI;
+        [apply (li_Dlog s HI)|apply (li_Ddlog s HI)|apply (li_Dimg s HI)|exact Hk].
+    - (* log image *)
+      apply llogimage_inv in H. destruct H as (_ & ->).
+      apply LInv_set_ln; cbn [l_log l_dlog l_imgs l_commit]; try reflexivity; try exact HI;
+        [apply (li_Dlog s HI)|apply (li_Ddlog s HI)| |apply (li_G s HI)].
+      intros img Hin. apply in_app_iff in Hin. destruct Hin as [Hin|[<-|[]]];
+        [eapply (li_Dimg s HI); exact Hin|apply (li_Dlog s HI)].
+    - (* log fsync *)
+      apply llogfsync_inv in H. destruct H as (img & rest & Ei & _ & ->).
+      apply LInv_set_ln; cbn [l_log l_dlog l_imgs l_commit]; try reflexivity; try exact HI;
+        [apply (li_Dlog s HI)| | |apply (li_G s HI)].
+      + apply (li_Dimg s HI n). rewrite Ei. left. reflexivity.
+      + intros img' Hin. apply (li_Dimg s HI n). rewrite Ei. right. exact Hin.
+  Qed.
+
+  Theorem lreachable_LInv s : lreachable s -> LInv s.
+  Proof.
+    induction 1 as [|s l s' Hr IH Hstep]; [apply LInv_init|]. eapply LInv_step; eassumption.
+  Qed.
+End LogInv.
